@@ -280,7 +280,7 @@ class Device(object):
         self.auth_spec = self.spec.get('auth')
         if isinstance(self.auth_spec, list):
             # one auth behaviour per session (repeated connect() calls)
-            idx = min(len(self.auth_log) - 1, len(self.auth_spec) - 1)
+            idx = min(max(0, self.sessions - 1), len(self.auth_spec) - 1)
             self.auth_spec = self.auth_spec[idx]
         self.keys_tried = 0
 
@@ -383,7 +383,7 @@ class Device(object):
         if self.sess['cnxn_sent']:
             self.c04.append('second CNXN in one session')
             return
-        if self.spec.get('cnxn_silent'):
+        if self.spec.get('cnxn_silent') or (self.sessions - 1) in self.spec.get('silent_sessions', ()):
             return
         if not self.auth_spec:
             self._strays(now)
@@ -593,7 +593,7 @@ class Device(object):
         out = []
         if self.broken:
             return out
-        if self.stalled:
+        if self.stalled and self.stall.get('kind') != 'trickle':
             return out
         if self.connq:
             p = self.connq[0]
@@ -611,12 +611,21 @@ class Device(object):
                 out.append((s, p))
         return out
 
+    def _check_stall(self, now):
+        if self.stall and not self.stalled and self.emitted >= self.stall.get('after_pkts', 1 << 30):
+            self.stalled = True
+            self.stall_next = now + self.stall.get('interval', 0.5)
+            self.probe('stall_began')
+            self.stall_began_at = now
+
     def has_ready(self, now):
+        self._check_stall(now)
         if self._filler_due(now):
             return True
         return bool(self._eligible(now))
 
     def next_event_time(self, now):
+        self._check_stall(now)
         ts = [p.ready for (_, p) in self._eligible(now, future=True)]
         ft = self._filler_time()
         if ft is not None:
@@ -660,6 +669,7 @@ class Device(object):
         return None
 
     def pop_packet(self, now):
+        self._check_stall(now)
         if self._filler_due(now):
             p = self._make_filler(now)
             if p is not None:
@@ -694,11 +704,6 @@ class Device(object):
         if c and c.get('at') == p.seq:
             raw = self._corrupt(raw, p, c)
         p.raw = raw
-        if self.stall and not self.stalled and self.emitted >= self.stall.get('after_pkts', 1 << 30):
-            self.stalled = True
-            self.stall_next = now + self.stall.get('interval', 0.5)
-            self.probe('stall_began')
-            self.stall_began_at = now
         return p
 
     def _corrupt(self, raw, p, c):
